@@ -223,6 +223,7 @@ func RunParent(p *Prop, tier string) int {
 	printedKnown := map[string]bool{}
 	reported := map[string]bool{}
 	newViolations := 0
+	unconfirmed := 0
 	knownHits := 0
 	os.MkdirAll(filepath.Join(VerifDir(), "replays"), 0o755)
 	for _, v := range agg.Violations {
@@ -263,6 +264,15 @@ func RunParent(p *Prop, tier string) int {
 			cmd.Env = append(os.Environ(), procs)
 			out, err2 := cmd.CombinedOutput()
 			ok := strings.Contains(string(out), "REPRODUCED signature="+v.Signature+"\n")
+			if !ok {
+				// the same recorded case may show the same failure class at another oracle component
+				// (e.g. the same panic site reached through another form of the segment)
+				for _, line := range strings.Split(string(out), "\n") {
+					if strings.HasPrefix(line, "REPRODUCED signature=") && sigCore(strings.TrimPrefix(line, "REPRODUCED signature=")) == sigCore(v.Signature) {
+						ok = true
+					}
+				}
+			}
 			if isCrash {
 				if ee, isExit := err2.(*exec.ExitError); isExit && (ee.ExitCode() > 2 || ee.ExitCode() < 0 || strings.Contains(string(out), "fatal error:")) || strings.Contains(string(out), "REPRODUCED signature=") {
 					ok = true
@@ -277,8 +287,10 @@ func RunParent(p *Prop, tier string) int {
 		}
 		if repro < tries {
 			if repro < 2 {
-				fmt.Fprintf(os.Stderr, "HARNESS-ERROR property=%s violation reproduced in only %d of %d replays: not believed\n", p.ID, repro, tries)
-				return 2
+				// not believed; if nothing else is confirmed either, the run ends as a harness error
+				fmt.Fprintf(os.Stderr, "UNCONFIRMED property=%s signature %q reproduced in only %d of %d replays: not reported\n", p.ID, v.Signature, repro, tries)
+				unconfirmed++
+				continue
 			}
 			fmt.Printf("NOTE: intermittent: the recorded case violates the property in %d of %d replays (nondeterminism inside the code under test)\n", repro, tries)
 		}
@@ -288,6 +300,10 @@ func RunParent(p *Prop, tier string) int {
 		fmt.Printf("  signature: %s\n  detail: %s\n  case: %s\n", v.Signature, tail(v.Detail, 600), tail(v.Case, 600))
 	}
 
+	if unconfirmed > 0 && newViolations == 0 {
+		fmt.Fprintf(os.Stderr, "HARNESS-ERROR property=%s %d violation candidate(s) did not reproduce from their artefacts and none was confirmed (nondeterminism)\n", p.ID, unconfirmed)
+		return 2
+	}
 	ev := map[string]interface{}{
 		"property_id": p.ID,
 		"tier":        tier,
@@ -305,23 +321,27 @@ func RunParent(p *Prop, tier string) int {
 		samples = append(samples, "(no sample recorded)")
 	}
 	cov := map[string]interface{}{
-		"evaluations":                   agg.Evaluations,
-		"distinct_cases":                agg.Distinct,
-		"distinct_nontrivial":           agg.Nontrivial,
-		"rule":                          p.Rule,
-		"samples":                       samples,
-		"exhaustive":                    agg.Capped == "",
-		"distinct_outcomes":             len(outcomes),
-		"distinct_outcomes_capped":      agg.OutcomesCap,
-		"counters":                      agg.Counters,
-		"explorer":                      p.Explorer,
-		"workers":                       nw,
-		"traces_validated_against_impl": agg.Evaluations,
-		"known_finding_hits":            knownHits,
-		"violating_cases_seen":          agg.NViolations,
+		"evaluations":                      agg.Evaluations,
+		"distinct_cases":                   agg.Distinct,
+		"distinct_nontrivial":              agg.Nontrivial,
+		"rule":                             p.Rule,
+		"samples":                          samples,
+		"exhaustive":                       agg.Capped == "",
+		"distinct_outcomes":                len(outcomes),
+		"distinct_outcomes_capped":         agg.OutcomesCap,
+		"counters":                         agg.Counters,
+		"explorer":                         p.Explorer,
+		"workers":                          nw,
+		"traces_validated_against_impl":    agg.Evaluations,
+		"known_finding_hits":               knownHits,
+		"violating_cases_seen":             agg.NViolations,
+		"unconfirmed_violation_candidates": unconfirmed,
 	}
 	if agg.Capped != "" {
 		cov["capped"] = agg.Capped
+	}
+	if rp := os.Getenv("VERIF_RACEPASS"); rp != "" {
+		cov["race_pass_supplementary"] = rp
 	}
 	if agg.States > 0 {
 		cov["states"] = agg.States
@@ -455,4 +475,13 @@ func crashClass(stderr string, err error) string {
 		return "killed"
 	}
 	return "died"
+}
+
+// sigCore drops the oracle-component element of a signature: "C06/built/panic@f" -> "C06/panic@f".
+func sigCore(sig string) string {
+	parts := strings.Split(sig, "/")
+	if len(parts) < 3 {
+		return sig
+	}
+	return parts[0] + "/" + strings.Join(parts[2:], "/")
 }
